@@ -89,13 +89,18 @@ func vfHash(parts ...interface{}) uint64 {
 	return h.Sum64()
 }
 
+// vfDistinctCap bounds the set of distinct non-trivial case hashes a worker keeps (and reports): beyond
+// it the count in the evidence is a lower bound. Without it the longest campaigns ran out of memory
+// while writing their report.
+const vfDistinctCap = 400000
+
 // Eval counts one executed case. nontrivial: the sub-check's stated predicate; c: the case
 // (hashed for the distinct count and possibly kept as a sample); classes: labels to histogram.
 func (r *vfRecord) Eval(nontrivial bool, c interface{}, classes ...string) {
 	r.mu.Lock()
 	defer r.mu.Unlock()
 	r.Evaluations++
-	if nontrivial {
+	if nontrivial && len(r.nontrivial) < vfDistinctCap {
 		r.nontrivial[vfHash(c)] = struct{}{}
 	}
 	for _, cl := range classes {
@@ -115,7 +120,7 @@ func (r *vfRecord) EvalHash(nontrivial bool, h uint64, sample func() interface{}
 	r.mu.Lock()
 	defer r.mu.Unlock()
 	r.Evaluations++
-	if nontrivial {
+	if nontrivial && len(r.nontrivial) < vfDistinctCap {
 		r.nontrivial[h] = struct{}{}
 	}
 	for _, cl := range classes {
@@ -163,31 +168,42 @@ func (r *vfRecord) Known(id string, stillFails bool) {
 	r.mu.Unlock()
 }
 
-// vfTransient: an honest ECDHE handshake that fails inside the SM2 arithmetic ("sm2 verification failure"
-// of an honestly signed ServerKeyExchange, "point not on SM2 P256 curve" for an honestly generated
-// ephemeral key). Seen three times in some 10^6 handshakes, only inside long campaigns on a heavily
-// loaded machine, never from the saved case and never in 4 million handshakes of dedicated stress runs
-// (DESIGN 6.3). It cannot be attributed to the code under test, so up to two occurrences per process are
-// counted (excluded class "transient-sm2-error") instead of raised; a third one is raised together with
-// the count, so that a change that really breaks these computations is still reported.
+// Transient SM2 failures (DESIGN 6.3): untouched conversations between honest endpoints that fail inside
+// an SM2 computation - signature verification of an honestly signed message, parsing of an honestly
+// generated point, decryption of an honestly encrypted pre-master secret. Seen half a dozen times, only
+// inside long campaigns on a heavily loaded machine, never from the saved case and never in 4 million
+// handshakes of dedicated stress runs; they cannot be attributed to the code under test.
 var vfTransientSeen int64
 
-func vfTransient(msg string) bool {
-	if !strings.Contains(msg, "sm2 verification failure") && !strings.Contains(msg, "point not on SM2 P256 curve") {
+// vfTransient decides whether a failure that names an SM2 computation is raised. If the sub-check has a
+// replayer, the case is run again three times: a failure that shows again is raised like any other; one
+// that does not is counted (excluded class "transient-sm2-error") and not raised. Without a replayer up
+// to two occurrences per process are counted and a third is raised.
+func (r *vfRecord) vfTransient(msg string, c []byte) bool {
+	if !strings.Contains(strings.ToLower(msg), "sm2") {
 		return false
 	}
 	n := atomic.AddInt64(&vfTransientSeen, 1)
+	if f := vfReplayers[r.Sub]; f != nil && n <= 50 {
+		for i := 0; i < 3; i++ {
+			if err := f(json.RawMessage(c)); err != nil {
+				return false // it is reproducible from the case: a genuine violation
+			}
+		}
+		fmt.Fprintf(os.Stderr, "NOTE transient SM2 failure #%d in this process (the same case passed 3 times afterwards): %.300s\n", n, msg)
+		return true
+	}
 	fmt.Fprintf(os.Stderr, "NOTE transient SM2 failure #%d in this process: %.300s\n", n, msg)
 	return n <= 2
 }
 
 // Violation records a violation (outside rapid: enumerations, pinned cases).
 func (r *vfRecord) Violation(sig string, c interface{}, format string, a ...interface{}) {
-	if vfTransient(fmt.Sprintf(format, a...)) {
+	b, _ := json.Marshal(c)
+	if r.vfTransient(fmt.Sprintf(format, a...), b) {
 		r.Excluded("transient-sm2-error")
 		return
 	}
-	b, _ := json.Marshal(c)
 	r.mu.Lock()
 	defer r.mu.Unlock()
 	// one entry per signature is enough; keep the first (enumerations run small cases first)
@@ -211,7 +227,7 @@ func (r *vfRecord) Fail(t failT, sig string, c interface{}, format string, a ...
 	t.Helper()
 	b, _ := json.Marshal(c)
 	msg := fmt.Sprintf(format, a...)
-	if vfTransient(msg) {
+	if r.vfTransient(msg, b) {
 		r.Excluded("transient-sm2-error")
 		return
 	}
